@@ -7,6 +7,7 @@ import (
 	"runtime"
 	"runtime/debug"
 	"strconv"
+	"strings"
 	"sync/atomic"
 
 	structform "github.com/elastic/go-structform"
@@ -31,6 +32,9 @@ import (
 func opAlias(args []string) string {
 	f := Formats[args[0]]
 	t, ok := UParseType(args[1])
+	if strings.HasPrefix(args[1], "@@") {
+		t, ok = aliasTypes[args[1][2:]]
+	}
 	if !ok {
 		return "bad-type"
 	}
@@ -63,7 +67,7 @@ func opAlias(args []string) string {
 	}
 
 	target1 := reflect.New(t)
-	u, err := gotype.NewUnfolder(target1.Interface())
+	u, err := gotype.NewUnfolder(target1.Interface(), aliasUnfoldOpts)
 	if err != nil {
 		return "err"
 	}
@@ -147,7 +151,7 @@ func opAlias(args []string) string {
 
 func aliasControl(f *Format, t reflect.Type, doc [][]byte) (string, bool) {
 	target := reflect.New(t)
-	u, err := gotype.NewUnfolder(target.Interface())
+	u, err := gotype.NewUnfolder(target.Interface(), aliasUnfoldOpts)
 	if err != nil {
 		return "", false
 	}
